@@ -254,6 +254,17 @@ CLAIMED.update({
             "DESIGN.md 5 C19"),
 })
 
+CLAIMED.update({
+    "C33": ("model_checking",
+            "Response.tla (over Execution.tla's CollectFields and value representation) states the shape of a response for an "
+            "operation; random valid operations over two schemas are given to the real ResponseBuilder with two randomness sources, "
+            "list bounds and null ratios; TLC (Trace_Response) requires ResponseConforms for each recorded response, and the "
+            "operation executed over resolvers serving the generated data must reproduce it without errors.",
+            "Two fixed schemas; reproduction by execution only where the data names its concrete types.",
+            "TLA+ shape predicate evaluated by TLC on recorded generator outputs + execution over the generated data",
+            "DESIGN.md 5 C33"),
+})
+
 NOT_APPLICABLE = {}
 
 ALL = ["C%02d" % i for i in range(1, 34)]
